@@ -122,6 +122,8 @@ use ppoprf::ppoprf::{end_to_end_evaluation, Server as PPOPRFServer};
 
 pub const AES_BLOCK_LEN: usize = 24;
 pub const DIGEST_LEN: usize = 32;
+/// Length of the per-ciphertext nonce that prefixes `Ciphertext` bytes.
+pub const CIPHERTEXT_NONCE_LEN: usize = 16;
 
 // A `Measurement` provides the wrapper for a client-generated value in
 // the STAR protocol that is later aggregated and processed at the
@@ -214,20 +216,36 @@ pub struct Ciphertext {
 }
 impl Ciphertext {
   pub fn new(enc_key_buf: &[u8], data: &[u8], label: &str) -> Self {
+    // All clients reporting the same measurement derive the same key, so
+    // each ciphertext needs its own nonce: otherwise two of them would be
+    // encrypted under the same keystream and their XOR would reveal the
+    // XOR of the payloads (and so of the associated data) below threshold.
+    let mut nonce = [0u8; CIPHERTEXT_NONCE_LEN];
+    rand::rngs::OsRng.fill(&mut nonce);
+
     let mut s = Strobe::new(label.as_bytes(), SecParam::B128);
     s.key(enc_key_buf, false);
+    s.ad(&nonce, false);
     let mut x = vec![0u8; data.len()];
     x.copy_from_slice(data);
     s.send_enc(&mut x, false);
 
-    Self { bytes: x.to_vec() }
+    // The nonce is public and is carried in front of the encrypted data.
+    let mut bytes = nonce.to_vec();
+    bytes.extend(x);
+    Self { bytes }
   }
 
   pub fn decrypt(&self, enc_key_buf: &[u8], label: &str) -> Vec<u8> {
+    if self.bytes.len() < CIPHERTEXT_NONCE_LEN {
+      return Vec::new();
+    }
+    let (nonce, data) = self.bytes.split_at(CIPHERTEXT_NONCE_LEN);
     let mut s = Strobe::new(label.as_bytes(), SecParam::B128);
     s.key(enc_key_buf, false);
-    let mut m = vec![0u8; self.bytes.len()];
-    m.copy_from_slice(&self.bytes);
+    s.ad(nonce, false);
+    let mut m = vec![0u8; data.len()];
+    m.copy_from_slice(data);
     s.recv_enc(&mut m, false);
     m
   }
